@@ -337,6 +337,7 @@ func checkProgram(ps emitbatch.ProgSpec, bt batch, ns *rig.NatsServer) *progResu
 			for li, lp := range bt.Legs {
 				checkService(prog, f, svc, gs, methods, lp[0], lp[1], bt.Calls, rng, ns, res, addV, li == 0)
 			}
+			busyRegistry(prog, svc, gs, methods, []string{"binary", "compact", "json"}[int(ps.Seed>>12&0xffff)%3], rng, ns, res, addV)
 			scaledOut(prog, svc, gs, methods, []string{"binary", "compact", "json"}[int(ps.Seed>>4&0xffff)%3], rng, ns, res, addV)
 			largeReplies(prog, svc, gs, methods, []string{"binary", "compact", "json"}[int(ps.Seed>>8&0xffff)%3], rng, ns, res, addV)
 			afterOversizeReply(prog, svc, gs, methods, []string{"binary", "compact", "json"}[int(ps.Seed&0xffff)%3], rng, ns, res, addV)
@@ -593,6 +594,103 @@ func largeReplies(prog *idl.Program, svc *idl.Service, gs *genreg.Service, metho
 
 var largePhases, largeFailed int32
 var scaledPhases, scaledFailed int32
+var busyPhases, busyFailed int32
+
+// busyRegistry: a call is issued while the client transport's registry is busy
+// (its lock is held for 150 ms, as by another request's slow registration) on
+// the NATS and TCP legs; the real server answers as fast as it can.  Once the
+// registry is free the call completes with the handler's outcome like any
+// other call.  (Skipped on trees without the VerifLockRegistry hook.)
+func busyRegistry(prog *idl.Program, svc *idl.Service, gs *genreg.Service, methods []methodInfo, proto string, rng *rand.Rand, ns *rig.NatsServer, res *progResult, addV func(string, string, interface{})) {
+	if atomic.LoadInt32(&busyFailed) >= 1 || atomic.LoadInt32(&busyPhases) >= 4 {
+		return
+	}
+	var two []methodInfo
+	for _, mi := range methods {
+		if !mi.m.Oneway {
+			two = append(two, mi)
+		}
+	}
+	if len(two) == 0 {
+		return
+	}
+	atomic.AddInt32(&busyPhases, 1)
+	inner := addV
+	addV = func(sig, what string, w interface{}) {
+		atomic.AddInt32(&busyFailed, 1)
+		inner(sig, what, w)
+	}
+	for _, kind := range []string{"nats", "tcp"} {
+		if kind == "nats" && ns == nil {
+			continue
+		}
+		exp := &expectation{calls: map[string]int{}, args: map[string][]interface{}{}, outcome: map[string][]interface{}{}, observed: make(chan string, 1024)}
+		recorder := func(iface, method string, args []interface{}) []interface{} {
+			fctx, _ := args[0].(frugal.FContext)
+			token := ""
+			if fctx != nil {
+				token = fctx.CorrelationID()
+			}
+			exp.mu.Lock()
+			exp.calls[token]++
+			exp.args[token] = append([]interface{}{method}, args[1:]...)
+			out := exp.outcome[token]
+			exp.mu.Unlock()
+			select {
+			case exp.observed <- token:
+			default:
+			}
+			return out
+		}
+		var proc frugal.FProcessor
+		func() {
+			defer func() { recover() }()
+			proc = gs.NewProcessor(gs.NewStub(recorder))
+		}()
+		if proc == nil {
+			return
+		}
+		leg, err := rig.StartRPCLeg(kind, proto, proc, ns, rig.LegOptions{})
+		if err != nil {
+			res.Inconclusive = append(res.Inconclusive, fmt.Sprintf("leg %s/%s (busy registry): %v", kind, proto, err))
+			return
+		}
+		tr, err := leg.NewClient()
+		if err != nil {
+			leg.Stop()
+			res.Inconclusive = append(res.Inconclusive, fmt.Sprintf("client %s/%s (busy registry): %v", kind, proto, err))
+			return
+		}
+		client := reflect.ValueOf(gs.NewClient(frugal.NewFServiceProvider(tr, leg.PF)))
+		ct := client.Type()
+		for c := 0; c < 3; c++ {
+			mi := two[rng.Intn(len(two))]
+			var gm reflect.Value
+			for i := 0; i < ct.NumMethod(); i++ {
+				if norm(ct.Method(i).Name) == norm(mi.m.Name) {
+					gm = client.Method(i)
+				}
+			}
+			if !gm.IsValid() {
+				continue
+			}
+			unlock := rig.LockRegistry(tr)
+			if unlock == nil {
+				leg.Stop()
+				return
+			}
+			go func() { time.Sleep(150 * time.Millisecond); unlock() }()
+			one := runCall(prog, svc, mi, gm, fmt.Sprintf("%s-%s-busy-%s-%s-%d", svc.Name, mi.m.Name, kind, proto, c), kind+"/"+proto+"(client registry busy for 150 ms)", rng, exp, leg, res, addV)
+			resMu.Lock()
+			res.Calls++
+			if one != "" {
+				res.Outcomes[one+"(client registry busy)"]++
+			}
+			resMu.Unlock()
+		}
+		leg.Stop()
+	}
+}
 
 // scaledOut: two FNatsServer instances serve one processor on one subject in
 // one queue group (the usual scaled-out deployment): the broker hands a
